@@ -23,10 +23,10 @@ def convert_timestamp_to_unix_nano(iso_timestamp: str) -> int:
     dt = datetime.fromisoformat(iso_timestamp.rstrip("Z")).replace(
         tzinfo=timezone.utc
     )
-    # Convert the datetime object to a Unix timestamp in seconds
-    unix_timestamp = dt.timestamp()
-    # Convert the Unix timestamp to nanoseconds
-    unix_nano = int(unix_timestamp * 1e9 + dt.microsecond * 1e3)
+    # Convert the whole seconds of the datetime object to a Unix timestamp
+    unix_timestamp = int(dt.replace(microsecond=0).timestamp())
+    # Convert the Unix timestamp to nanoseconds, adding the microseconds once
+    unix_nano = unix_timestamp * 10**9 + dt.microsecond * 10**3
     return unix_nano
 
 
